@@ -1012,7 +1012,7 @@ def run(ctx):
     cat = catalogue()
     rng = ctx.rng
     if ctx.quick():
-        seqs = [gen_sequence(rng, cat, 22), gen_sequence(rng, cat, 20)]
+        seqs = [gen_sequence(rng, cat, 22), gen_sequence(rng, cat, 14)]
         threads = [1, 4, 16]
     else:
         seqs = [gen_sequence(rng, cat, rng.randint(40, 60)) for _ in range(4)]
